@@ -8,8 +8,8 @@ HOOK_COMMITS = ["a4754da"]
 CHECKS = {
  # id: (category, technique, level text, level note, design ref)
  "C01": ("exploration", "stateful property-based testing (proptest histories) vs model + own decoder/forest walker",
-         "Thousands of generated update/build histories (7 metrics, pools 1-16, small ids colliding with node ids, split_after/n_trees changing) are executed against the real crate; after every build the raw LMDB dump is decoded by an independent reference codec and walked: every tree reaches exactly the model's items once, no dangling/shared/orphan node. Sampling, not proof; quick = 6 300 histories (incl. 300 of 250-800 items with memory-limited builds), thorough = 125 000 + 160 large ones (2-5k items, 130 dims), both build profiles, plus 10 min libFuzzer+ASan over the same interpreter.",
-         "Trusts LMDB/heed; x86-64 only; sizes <= ~1000 items per history in quick.", "4 C01"),
+         "Thousands of generated update/build histories (7 metrics, pools 1-16, small ids colliding with node ids, split_after/n_trees changing) are executed against the real crate; after every build the raw LMDB dump is decoded by an independent reference codec and walked: every tree reaches exactly the model's items once, no dangling/shared/orphan node. Sampling, not proof; quick = 6 400 histories (incl. 300 of 250-800 items with memory-limited builds and 96 in which 4097-9000 ids arrive in one round), thorough = 125 000 + 160 large ones (2-5k items, 130 dims) + 1 500 bulk ones, both build profiles, plus 10 min libFuzzer+ASan over the same interpreter.",
+         "Trusts LMDB/heed; x86-64 only; most quick histories hold <= ~1000 items, 96 hold up to ~9000.", "4 C01"),
  "C02": ("exploration", "property-based testing with an f64 brute-force k-NN oracle",
          "Unlimited-budget queries on generated built indexes are compared with brute force over the model (length, ids, distances within a rigorous rounding bound, order, nothing nearer omitted).", "Tie order unconstrained; accuracy clauses skipped outside the stated float domain.", "4 C02"),
  "C03": ("exploration", "property-based + metamorphic testing over a query-parameter lattice",
@@ -23,7 +23,7 @@ CHECKS = {
  "C07": ("exploration", "stateful property-based testing; byte-for-byte differential of raw dumps of passive indexes",
          "Interleaved scripts on 2-3 (mostly adjacent / extreme) indexes: the raw key/value bytes of every other index are identical before and after each step on the active one.", "-", "4 C07"),
  "C14": ("exploration", "property-based testing over build configurations; poll-count termination oracle + walker + brute force",
-         "available_memory x sizes around the 200-item batch x split_after incl. >=200 x incremental histories: the build must return Ok within a poll-count bound (no clock), the forest must be valid and exact search correct.", "Poll bound = 100 (n+16)(t+1) + n^2 (t+1)/20 + 20000 polls, >=4x above the structural worst case.", "4 C14"),
+         "available_memory x sizes around the 200-item batch (and rounds of 4097-9000 new ids) x split_after incl. >=200 x incremental histories: the build must return Ok within a poll-count bound (no clock), the forest must be valid and exact search correct.", "Poll bound = 100 (n+16)(t+1) + n^2 (t+1)/20 + 20000 polls, >=4x above the structural worst case.", "4 C14"),
  "C15": ("exploration", "stateful property-based testing with predicates on reader + decoded dump",
          "Histories with constant split_after and varying n_trees around the capacity boundary: tree count rules, nns(1) non-empty, every bucket <= capacity, Reader::stats == census; build failures are violations here.", "-", "4 C15"),
  "C18": ("exploration", "stateful property-based testing over all 49 metric pairs vs model + decoded dump",
